@@ -14,6 +14,8 @@ import (
 	"net/http/httptest"
 	"strconv"
 	"strings"
+	"sync"
+	"sync/atomic"
 
 	"rivaas.dev/app"
 	"rivaas.dev/router"
@@ -179,9 +181,24 @@ type ReqState struct {
 	Hook func(c *router.Context, st *ReqState, hid int, a Act)
 }
 
+// states of requests that travel through a real HTTP server (no context value survives the wire):
+// keyed by the X-Verif-Req header
+var wireStates sync.Map
+
+const wireHeader = "X-Verif-Req"
+
+var wireSeq atomic.Int64
+
 func stateOf(c *router.Context) *ReqState {
-	st, _ := c.Request.Context().Value(ctxKey{}).(*ReqState)
-	return st
+	if st, ok := c.Request.Context().Value(ctxKey{}).(*ReqState); ok {
+		return st
+	}
+	if id := c.Request.Header.Get(wireHeader); id != "" {
+		if v, ok := wireStates.Load(id); ok {
+			return v.(*ReqState)
+		}
+	}
+	return nil
 }
 
 // PanicValue returns the panic value number v of the C10 quantifier.
@@ -538,6 +555,39 @@ func (w *World) ServeOn(h http.Handler, t Target, st *ReqState) Result {
 	res.Trace = st.Log
 	res.Status = rec.Code
 	res.Body = ParseBody(rec.Body.Bytes())
+	return res
+}
+
+// ServeWire sends the request through a real HTTP server (srv wraps router 0). A panic that leaves
+// ServeHTTP is caught by net/http, which drops the connection: the client sees a transport error,
+// reported as Escaped = WireEscaped (the panic value itself is not observable over the wire).
+const WireEscaped = 9
+
+func (w *World) ServeWire(srv *httptest.Server, t Target, st *ReqState) Result {
+	id := strconv.FormatInt(wireSeq.Add(1), 10)
+	wireStates.Store(id, st)
+	defer wireStates.Delete(id)
+	st.Cancel = func() {}
+	req, _ := http.NewRequest(http.MethodGet, srv.URL+SegPath(t.Path), nil)
+	req.Header.Set(wireHeader, id)
+	if t.Ver >= 0 {
+		req.Header.Set(VersionHeader, "v"+strconv.Itoa(t.Ver))
+	}
+	res := Result{Escaped: -1}
+	resp, err := srv.Client().Do(req)
+	if err != nil {
+		res.Escaped = WireEscaped
+		res.Trace = st.Log
+		return res
+	}
+	defer resp.Body.Close()
+	b, err := io.ReadAll(resp.Body)
+	if err != nil {
+		res.Escaped = WireEscaped
+	}
+	res.Trace = st.Log
+	res.Status = resp.StatusCode
+	res.Body = ParseBody(b)
 	return res
 }
 
